@@ -9,7 +9,7 @@ From PdV Require Import LifeProofs.
 Theorem C19_reader_balanced :
   forall r es,
     let '(s, l) := grun r Fresh l0 es in
-    caller_closed l = 0 /\
+    caller_closed l = 0 /\ closed l <= opened l /\
     match s with
     | Fresh => opened l = 0
     | Suspended _ => held l = (if r_owns r then 1 else 0)
@@ -43,15 +43,16 @@ Example C19_example :
   = (Finished, {| opened := 1; closed := 1; caller_closed := 0 |}).
 Proof. vm_compute. reflexivity. Qed.
 
-(* load_files over several locations (one reader at a time): for every list of locations - each
-   with its own number of blocks, fault position and ownership - and every trace of next / close /
-   drop on the loader: the caller's streams are never closed, at most the one file of the reader the
-   loader is suspended in is held, and once the loader has finished - exhausted, closed, dropped or
-   ended by an error in any block of any file - nothing is held *)
+(* load_files over several locations (one reader at a time, default raising tracker): for every list
+   of locations in reading order - each with its own number of blocks and fault position - and every
+   trace of next / close / drop on the loader: never more closes than opens, at most the one file of
+   the reader the loader is suspended in is held, and once the loader has finished - exhausted, closed,
+   dropped or ended by an error in any block of any file - nothing is held (held = opened - closed,
+   with closed <= opened stated beside it) *)
 Theorem C19_loader_balanced :
   forall rs es,
     let '(rs', s, l) := lrun rs Fresh l0 es in
-    caller_closed l = 0 /\ held l <= 1 /\
+    caller_closed l = 0 /\ closed l <= opened l /\ held l <= 1 /\
     match rs', s with
     | r :: _, Suspended _ => held l = (if r_owns r then 1 else 0)
     | _, _ => held l = 0
